@@ -63,7 +63,24 @@ impl<'a> G<'a> {
         }
         self.depth -= 1;
     }
-    fn body(&mut self) { let n = self.u.below(4); for _ in 0..n { if self.u.coin(1, 2) { self.plain_ws(); } self.stmt(); } if self.u.coin(1, 2) { self.plain_ws(); } }
+    fn body(&mut self) { let n = self.u.below(4); for _ in 0..n { if self.u.coin(1, 2) { self.plain_ws(); } self.stmt(); } if self.u.coin(1, 2) { self.plain_ws(); } if self.u.coin(1, 5) { self.open_tail(); } }
+    // conditional / function-style text: an open-code fragment that is not terminated by ';' before %end / %mend
+    fn open_tail(&mut self) {
+        self.feat("body-tail-without-semi");
+        if !self.out.ends_with([' ', '\n']) { self.p(" "); }
+        let n = 1 + self.u.below(3);
+        for i in 0..n {
+            if i > 0 { self.p(" "); }
+            match self.u.below(6) {
+                0 | 1 => { let s = self.pick(IDENTS); self.p(s); }
+                2 => self.number(),
+                3 => { self.mvar(true); }
+                4 => { let s = self.pick(IDENTS); self.p(s); self.p(" + 1"); }
+                _ => { self.p("%length("); self.mvar(true); self.p(") - 1"); }
+            }
+        }
+        self.p(" ");
+    }
 
     // ---------- open code
     fn open_stmt(&mut self) {
@@ -304,7 +321,7 @@ impl<'a> G<'a> {
             3 => { self.p("%syscall"); self.rws(); self.p("ranuni"); self.ows(); self.del_mark("(", "LPAREN", "MissingExpectedLParen", false); self.mvar(true); self.mark(",", MK::Delim("COMMA", false)); self.ows(); self.mvar(true); self.mark(")", MK::Delim("RPAREN", false)); self.ows(); self.del_mark(";", "SEMI", "MissingExpectedSemiOrEOF", false); }
             4 => { self.p("%include"); self.rws(); self.p("'file.sas'"); self.ows(); self.p(";"); }
             5 => { self.p("%abort"); if self.u.coin(1, 2) { self.p(" cancel"); } self.ows(); self.p(";"); }
-            6 => { self.p("%copy"); self.rws(); let nm = self.pick(MNAMES); self.p(nm); self.ows(); self.del_mark("/", "FSLASH", "MissingExpectedFSlash", false); self.ows(); self.p("source"); self.ows(); self.p(";"); }
+            6 => { self.p("%copy"); self.rws(); let nm = self.pick(MNAMES); self.p(nm); self.ows(); self.del_mark("/", "FSLASH", "MissingExpectedFSlash", false); self.ows(); if self.u.coin(2, 3) { let o = self.pick(&["source", "SOURCE", "source outfile='f.sas'", "lib=work source"]); self.p(o); self.ows(); } self.p(";"); }
             _ => { self.p("%sysrput"); self.rws(); self.name_expr(); self.p("="); self.mvar(true); self.p(";"); }
         }
     }
